@@ -237,10 +237,14 @@ class FeatureCollectionAggregates(Case):
     func = FCOL + ".__init__"
     name = "FeatureIntervalCollection aggregates[2 features]"
     call = ("(lambda c: (c.start, c.end, c.is_coding, sorted(c.feature_types), c.get_primary_feature(), "
-            "c.get_merged_feature().chromosome_location, c.bin))(FeatureIntervalCollection(kids))")
+            "c.get_merged_feature().chromosome_location, c.bin, [sorted(k.feature_types) for k in kids]))"
+            "(FeatureIntervalCollection(kids))")
     module = "gene.feature"
     raises = {"ValidationException": lambda i: count_true([c.flag for c in i.info]) >= 2}
     ensures = {
+        # the aggregate is COMPUTED from the children: building it changes no child (a later collection that re-uses a
+        # child must not see types the child was never given)
+        "children's-own-types-unchanged": lambda i, r: [list(x) for x in r[7]] == [["shared", "type0"], ["shared", "type1"]],
         "span": lambda i, r: And(r[0] == _min([c.s for c in i.info]), r[1] == _max([c.e for c in i.info])),
         "never-coding": lambda i, r: r[2] is False,
         "bin-of-span": lambda i, r: r[6] == _spec_bin(_min([c.s for c in i.info]), _max([c.e for c in i.info])),
@@ -262,7 +266,8 @@ class FeatureCollectionAggregates(Case):
     def observe(self, r):
         from pyvc.check import default_observe as o
         from .c02_single import obs_loc
-        return [o(r[0]), o(r[1]), o(r[2]), list(r[3]), getattr(r[4], "feature_id", None), obs_loc(r[5])[:2], o(r[6])]
+        return [o(r[0]), o(r[1]), o(r[2]), list(r[3]), getattr(r[4], "feature_id", None), obs_loc(r[5])[:2], o(r[6]),
+                [list(x) for x in r[7]]]
 
 
 class AggregatesOnChunk(Case):
@@ -322,6 +327,44 @@ class AggregatesOnChunk(Case):
         from pyvc.check import default_observe as o
         from .c02_single import obs_loc
         return [o(r[0]), o(r[1]), obs_loc(r[2])[:2], None if r[3] is None else obs_loc(r[3])[:2]]
+
+
+class ParentlessCollectionKeepsChildren(Case):
+    """a gene / feature collection built WITHOUT a parent around children that carry their own sequence-bearing parent:
+    the children are operands - they keep their parent, their sequence and their coordinates (the collection only
+    re-parents children when it is GIVEN a parent)."""
+    props = ("C10", "C20", "C19")
+    module = "gene.gene"
+
+    def __init__(self, kind):
+        self.kind = kind
+        cls = "GeneInterval" if kind == "gene" else "FeatureIntervalCollection"
+        self.func = (GENE if kind == "gene" else FCOL) + ".__init__"
+        self.name = f"{cls}(children with their own sequence parent, no parent argument) leaves the children unchanged"
+        self.call = (f"(lambda g: (kid.chunk_relative_location.parent.id, kid.chunk_relative_location.parent.sequence is seq, "
+                     f"kid.start, kid.end, len(kid.get_spliced_sequence()), g.start, g.end))({cls}([kid]))")
+        self.ensures = {
+            "child-keeps-its-parent-and-sequence": lambda i, r: And(r[0] == "chr1", r[1] is True),
+            "child-coordinates-and-sequence-unchanged": lambda i, r: And(r[2] == i.s, r[3] == i.e, r[4] == i.e - i.s),
+            "span": lambda i, r: And(r[5] == i.s, r[6] == i.e),
+        }
+
+    def inputs(self, S):
+        s, e = S.int("s"), S.int("e")
+        par, L = parent_with_sequence(S)
+        S.assume(And(0 <= s, s < e, e <= L))
+        strand = strand_of(S, "strand")
+        if self.kind == "gene":
+            kid = S.new(TRANSCRIPT, [s], [e], strand, parent_or_seq_chunk_parent=par)
+        else:
+            kid = S.new(FEATURE, [s], [e], strand, parent_or_seq_chunk_parent=par)
+        return NS(kid=kid, s=s, e=e, seq=par.sequence if S.mode == "native" else S.e.getattr(par, "sequence"),
+                  GeneInterval=S.cls(GENE), FeatureIntervalCollection=S.cls(FCOL))
+
+    def samples(self, rng):
+        s = rng.randint(0, 12)
+        return dict(s=s, e=rng.randint(s + 1, 16), strand=rng.choice(["PLUS", "MINUS"]),
+                    seq="".join(rng.choice("ACGT") for _ in range(16 + rng.randint(0, 3))))
 
 
 class GenePrimarySequences(Case):
@@ -395,7 +438,7 @@ def _chrom_base(i, p):
     return cb(i, p)
 
 
-CASES = [GenePrimarySequences(), AggregatesOnChunk("gene"), AggregatesOnChunk("features"), FindPrimary((True, True)), FindPrimary((True, False)), FindPrimary((False, False)),
+CASES = [GenePrimarySequences(), ParentlessCollectionKeepsChildren('gene'), ParentlessCollectionKeepsChildren('features'), AggregatesOnChunk("gene"), AggregatesOnChunk("features"), FindPrimary((True, True)), FindPrimary((True, False)), FindPrimary((False, False)),
          FindPrimary((True, True, True)), FindPrimary((False, False), "feature"),
          GeneAggregates((True, True)), GeneAggregates((True, False)), FeatureCollectionAggregates(),
          FindPrimary((True, True), chunk=True), FindPrimary((True, False), chunk=True), SizeKeys(1), SizeKeys(2)]
